@@ -97,8 +97,11 @@ CLAIMED = {
              "cursor exactly and cuts the undo stack back to its mark (with C05: the changeset from before); any other key keeps "
              "the shown candidate, closes the undo group and is executed by the main loop; one Undo after an accepted completion "
              "pops exactly that group and yields the pre-completion text (a valid script determines its text); in list mode the "
-             "inserted text is a prefix of every candidate and the longest such. PARTIAL: whole completion sessions, list mode's "
-             "'only when it extends the span' rule and the listing by the correspondence and the recomputing oracle.",
+             "inserted text is a prefix of every candidate and the longest such (and the byte-wise computation of completion.rs "
+             "equals it: C15), it replaces exactly the span -- text before and after intact, cursor after it -- when it is "
+             "longer than the span or there is one candidate, and otherwise that step changes nothing at all. PARTIAL: the "
+             "composition over whole completion sessions (the loops are the model's, each key with an arbitrary continuation) "
+             "and the candidate listing (columns, paging question) by the correspondence and the recomputing oracle.",
         note=TTY_NOTE,
         technique="Coq proof: symbolic execution of the completion branch per key; induction for LCP and for uniqueness of the script's text; extracted-model differential check through a pty + recomputing oracle"),
     "C17": dict(
